@@ -215,7 +215,10 @@ func run(c Case) (v vkit.Verdict) {
 		}
 		var out []int
 		for i, q := range c.Nodes {
-			if inNet[i] && math.Hypot(float64(q[0])-float64(p[0]), float64(q[1])-float64(p[1])) <= best+1e-12 {
+			// ties: a node's position is only defined up to the tolerance with which link ends are identified
+			// (1e-9 relative; the generator moves link ends by up to a few 1e-13 relative), so any node within that
+			// of the minimum is an admissible end
+			if inNet[i] && math.Hypot(float64(q[0])-float64(p[0]), float64(q[1])-float64(p[1])) <= best+1e-9*math.Max(1, math.Max(math.Abs(float64(q[0])), math.Abs(float64(q[1])))) {
 				out = append(out, i)
 			}
 		}
